@@ -512,8 +512,17 @@ def run(repo, rep, tier):
   sub = type(rep)(rep.prop, rep.tier, rep.repo)
   c10.r3_r4_results(repo, sub)
   for i in sub.instances:
-    if i.rule == 'R4/fresh-heap' and ('exhaustive_search' in (i.func or '') or 'exhaustive_search' in (i.subject or '') or i.status == 'violation'):
+    if i.rule == 'R4/fresh-heap' and ('exhaustive_search' in (i.func or '') or 'exhaustive_search' in (i.subject or '') or 'exhaustive_search' in (i.detail or '')):
       i.rule = 'R4/fresh-heap'
+      rep.instances.append(i)
+  # the series every candidate is scored on are the rows of the array the index setter builds from the current table: a
+  # setter that can leave a stale array in place makes the search rank designs by another panel (C04.R4 / C15.R3)
+  from mmsa.props import c04
+  sub = type(rep)(rep.prop, rep.tier, rep.repo)
+  c04.r4_data_object(repo, sub)
+  for i in sub.instances:
+    if i.rule == 'R4/single-source' and any('_array' in (t_ or '') for t_ in (i.subject, i.construct, i.detail)):
+      i.rule = 'R6/scored-on-current-data'
       rep.instances.append(i)
   res = r1_r2_r4(repo, rep)
   if res is not None:
